@@ -158,6 +158,11 @@ REJECT = {
     "values_setter_shape": lambda: _set_values(),
     "axis_values_setter_size": lambda: setattr(Axis(np.array(X2), "x"), "values", np.array([1, 2, 3])),
     "axes_setitem_size": lambda: DimArray(V, axes=[X2, Y3], dims=["x", "y"]).axes.__setitem__(0, Axis(np.array([1, 2, 3]), "x")),
+    "clean_x_setter_size": lambda: _refused_cleanly(lambda a: setattr(a, "x", ["p", "q", "r"])),
+    "clean_labels_setter_size": lambda: _refused_cleanly(lambda a: setattr(a, "labels", (["p", "q", "r"], Y3))),
+    "clean_set_axis_size": lambda: _refused_cleanly(lambda a: a.set_axis([0.5, 1.5, 2.5], axis="x")),
+    "clean_axis_setitem_range": lambda: _refused_cleanly(lambda a: a.axes[0].__setitem__(5, "q")),
+    "clean_values_setter_shape": lambda: _refused_cleanly(lambda a: setattr(a, "values", np.zeros((3, 2)) + 0.5)),
     "labels_setter_size": lambda: setattr(DimArray(V, axes=[X2, Y3], dims=["x", "y"]), "labels", ([1, 2, 3], Y3)),
     "rename_empty": lambda: setattr(DimArray(V, axes=[X2, Y3], dims=["x", "y"]).axes[0], "name", ""),
     "rename_nonstr": lambda: setattr(DimArray(V, axes=[X2, Y3], dims=["x", "y"]).axes[0], "name", 3),
@@ -183,6 +188,19 @@ def _set_values():
 
 class _Accepted(Exception):
     pass
+
+
+def _refused_cleanly(edit):
+    """a wrong-sized in-place edit must be refused AND leave the array (values, labels, their dtypes) as it was"""
+    a = DimArray(np.arange(6).reshape(2, 3), axes=[np.array(X2), np.array(Y3, dtype=object)], dims=["x", "y"])
+    before = common.snap(a)
+    try:
+        edit(a)
+    except Exception:
+        if common.snap(a) != before:
+            return "REFUSED, BUT THE ARRAY CHANGED ALL THE SAME: " + common.describe(a)
+        raise
+    return a
 
 
 def _must_be_wellformed(res):
